@@ -5,7 +5,7 @@ import ast
 from typing import Dict, List, Optional, Set, Tuple
 
 from ..cfg import CFG, walk_node
-from ..model import AnalysisError, FuncInfo, Repo, call_np, dotted, method_call, src, walk_no_nested
+from ..model import AnalysisError, FuncInfo, Repo, call_np, dotted, expand_src, method_call, src, walk_no_nested
 from ..report import Ob, bad, note, ok, skip
 from ..symalg import Folder, Mat, Poly, Unfoldable
 from . import rule
@@ -185,14 +185,58 @@ def valid(repo: Repo) -> List[Ob]:
 
     def has_raise_under(fi: FuncInfo, pred) -> bool:
         for i in [x for x in walk_no_nested(fi.node) if isinstance(x, ast.If)]:
-            if pred(src(i.test)) and any(isinstance(y, ast.Raise) for b in i.body for y in [b] + list(walk_no_nested(b))):
+            if (pred(src(i.test)) or pred(expand_src(fi.node, i.test))) and any(isinstance(y, ast.Raise) for b in i.body for y in [b] + list(walk_no_nested(b))):
                 return True
         return False
 
     def has_assert(fi: FuncInfo, pred) -> bool:
-        return any(isinstance(x, ast.Assert) and pred(src(x.test)) for x in walk_no_nested(fi.node))
+        return any(isinstance(x, ast.Assert) and (pred(src(x.test)) or pred(expand_src(fi.node, x.test))) for x in walk_no_nested(fi.node))
+
+    def live_operands(fi: FuncInfo) -> bool:
+        """CompositeEnvelope.combine: a loop over the requested subsystems that rejects a destroyed one (level is no longer an
+        ExpansionLevel / measured flag) in its stand-alone arm, is not cut short by `break`, and lies on every path to the first
+        write of a product space (a late failure inside kron leaves an emptied product space behind)"""
+        cfg = CFG(fi.node)
+        vararg = fi.node.args.vararg.arg if fi.node.args.vararg else "state_objs"
+        headers = set()
+        for l in [x for x in walk_no_nested(fi.node) if isinstance(x, ast.For)]:
+            if not any(isinstance(y, ast.Name) and y.id == vararg for y in ast.walk(l.iter)) or not isinstance(l.target, ast.Name):
+                continue
+            if any(isinstance(y, ast.Break) for y in ast.walk(l)):
+                continue
+            v = l.target.id
+
+            def is_live_test(t: ast.AST, positive: bool) -> bool:
+                tx = src(t).replace(" ", "")
+                if positive:       # assert <live>
+                    return tx == f"isinstance({v}.expansion_level,ExpansionLevel)" or tx == f"not{v}.measured" or tx == f"{v}.expansion_levelisnotNone"
+                return tx in (f"{v}.measured", f"notisinstance({v}.expansion_level,ExpansionLevel)", f"{v}.expansion_levelisNone")
+
+            def guarded(stmts) -> bool:
+                for st in stmts:
+                    if isinstance(st, ast.Assert) and is_live_test(st.test, True):
+                        return True
+                    if isinstance(st, ast.If) and is_live_test(st.test, False) and any(isinstance(y, ast.Raise) for y in st.body):
+                        return True
+                return False
+            okl = guarded(l.body)
+            for st in l.body:
+                if isinstance(st, ast.If) and src(st.test).replace(" ", "") == f"{v}.indexisNone" and guarded(st.body):
+                    okl = True
+            if okl:
+                headers |= {nd for nd in cfg.nodes if nd.kind == "iter" and nd.stmt is l}
+        if not headers:
+            return False
+        writes = [nd for nd in cfg.nodes if nd.kind == "stmt" and isinstance(nd.ast, ast.Assign)
+                  and any(isinstance(t, ast.Attribute) and t.attr in ("state_objs", "state") for t in nd.ast.targets)]
+        writes += [nd for nd in cfg.nodes if nd.kind == "stmt" and any(method_call(x) and method_call(x)[1] == "extract" for x in walk_node(nd))]
+        if not writes:
+            raise AnalysisError("VALID: no product-space write found in CompositeEnvelope.combine")
+        return all(cfg.must_pass_through(w, headers) for w in writes)
 
     checks = [
+        ("CompositeEnvelope.combine", "destroyed-operand", live_operands,
+         "a destroyed subsystem is no longer rejected before the product spaces are rewritten: the call fails later, inside the assembly, with the absorbed product spaces already emptied"),
         ("Operation.__init__", "required-parameters", lambda f: any(isinstance(l, ast.For) and "required_params" in src(l.iter) and any(isinstance(y, ast.Raise) for y in ast.walk(l)) for l in walk_no_nested(f.node)),
          "a missing required parameter is no longer rejected at construction"),
         ("Envelope.apply_operation", "operation-type-vs-target:fock", lambda f: has_raise_under(f, lambda t: "Fock" in t and "isinstance" in t and "not" in t) or has_raise_under(f, lambda t: "FockOperationType" in t),
@@ -266,7 +310,7 @@ def outcome_space(repo: Repo) -> List[Ob]:
     """the sample space handed to the sampler is 0..n-1 with n the length of the probability vector"""
     obs: List[Ob] = []
     n = 0
-    for fi in repo.all_functions():
+    for fi in repo.scan_functions():
         if not fi.module.name.startswith("photon_weave.state"):
             continue
         calls = sampler_calls(fi)
@@ -316,6 +360,9 @@ def dim_floor(repo: Repo) -> List[Ob]:
     fcd = repo.cls("FockOperationType").methods["compute_dimensions"]
     arms, _ = match_arms(fcd, "FockOperationType")
     n = 0
+
+    def X(e: ast.AST) -> str:
+        return expand_src(fcd.node, e).replace(" ", "")
     for mem in ("Displace", "Squeeze", "Expresion"):
         arm = arms.get(mem)
         if arm is None:
@@ -328,16 +375,17 @@ def dim_floor(repo: Repo) -> List[Ob]:
             t = i.test
             if isinstance(t, ast.Compare) and len(t.ops) == 1:
                 l, r = src(t.left).replace(" ", ""), src(t.comparators[0]).replace(" ", "")
+                lx, rx = X(t.left), X(t.comparators[0])          # read through once-bound names (`floor = num_quanta + 1`)
                 op = type(t.ops[0])
                 var = None
-                if l in est and ((op is ast.Lt and r == "num_quanta+1") or (op is ast.LtE and r == "num_quanta")):
+                if l in est and ((op is ast.Lt and rx == "num_quanta+1") or (op is ast.LtE and rx == "num_quanta")):
                     var = l
-                if r in est and ((op is ast.Gt and l == "num_quanta+1") or (op is ast.GtE and l == "num_quanta")):
+                if r in est and ((op is ast.Gt and lx == "num_quanta+1") or (op is ast.GtE and lx == "num_quanta")):
                     var = r
-                if var and any(isinstance(st, ast.Assign) and src(st.targets[0]) == var and src(st.value).replace(" ", "") == "num_quanta+1" for st in i.body):
+                if var and any(isinstance(st, ast.Assign) and src(st.targets[0]) == var and X(st.value) == "num_quanta+1" for st in i.body):
                     good = True
         for b in arm.body:
-            if isinstance(b, ast.Return) and "max(" in src(b.value) and "num_quanta + 1" in src(b.value):
+            if isinstance(b, ast.Return) and "max(" in src(b.value) and "num_quanta+1" in X(b.value):
                 good = True
         (obs.append(ok("DIM-FLOOR", fcd, f"floor:{mem}", P, arm.body[0], "estimated dimension is raised to num_quanta + 1 when smaller")) if good else
          obs.append(bad("DIM-FLOOR", fcd, f"floor:{mem}", P, arm.body[0], f"{mem}: the estimated dimension can be smaller than the highest occupied level + 1: the resize before the operation would have to cut population (and is refused), leaving operator and state sizes inconsistent")))
@@ -412,4 +460,54 @@ def dim_norm(repo: Repo) -> List[Ob]:
         good = bool(norm_nodes) and cfg.must_pass_through(u, norm_nodes)
         (obs.append(ok("DIM-NORM", fi, f"estimator-input#{i}", P, u.ast, "the estimator receives a normalised state on every path")) if good else
          obs.append(bad("DIM-NORM", fi, f"estimator-input#{i}", P, u.ast, "the dimension estimator can receive an un-normalised traced-out state: its threshold test stops too early (or never) and the automatic cutoff is wrong")))
+    return obs
+
+
+ROUTED_METHODS = {"contract", "expand", "measure", "measure_POVM", "apply_kraus", "apply_operation", "resize", "trace_out", "extract"}
+
+
+@rule("DETACH")
+def detach(repo: Repo) -> List[Ob]:
+    """a member that is handed its own state back (`X.state = <array>`) is detached (`X.index = None`) before any routed
+    method is called on it: while the index still points into the container, X.contract()/expand()/measure()… act on the
+    container's state, not on the array X was just given"""
+    obs: List[Ob] = []
+    n = 0
+    for cname in ("Envelope", "ProductState", "CompositeEnvelope"):
+        for mname, fi in repo.cls(cname).methods.items():
+            if fi.qualname in getattr(repo, "absorbed", ()):
+                continue
+            hands = [a for a in walk_no_nested(fi.node) if isinstance(a, ast.Assign) and len(a.targets) == 1 and isinstance(a.targets[0], ast.Attribute)
+                     and a.targets[0].attr == "state" and src(a.targets[0].value) != "self"
+                     and not (isinstance(a.value, ast.Constant) and a.value.value is None)]
+            if not hands:
+                continue
+            cfg = CFG(fi.node)
+            props = tuple(dict.fromkeys({"measure": ("C05",), "measure_POVM": ("C09",), "apply_kraus": ("C06",), "trace_out": ("C02",)}.get(mname, ()) + ("C07", "C13")))
+            by_owner: Dict[str, List[ast.Assign]] = {}
+            for a in hands:
+                by_owner.setdefault(src(a.targets[0].value), []).append(a)
+            for owner, assigns in sorted(by_owner.items()):
+                resets = {nd for nd in cfg.nodes if nd.kind == "stmt" and isinstance(nd.ast, ast.Assign)
+                          and any(isinstance(t, ast.Attribute) and t.attr == "index" and src(t.value) == owner for t in nd.ast.targets)
+                          and isinstance(nd.ast.value, ast.Constant) and nd.ast.value.value is None}
+                resets |= {nd for nd in cfg.nodes if any(method_call(x) and method_call(x)[1] in ("set_index", "_set_measured") and src(method_call(x)[0]) == owner and not x.args
+                                                         for x in walk_node(nd))}
+                if not resets:
+                    continue          # the member stays inside the container (its `.state` is a label/placeholder write): not a detachment
+                n += 1
+                starts = [nd for nd in cfg.nodes if nd.kind == "stmt" and any(nd.ast is a for a in assigns)]
+                reach = cfg.reachable([m for s in starts for m, _ in cfg.succ[s]], blocked=resets)
+                early = [(nd, x) for nd in reach for x in walk_node(nd)
+                         if method_call(x) and method_call(x)[1] in ROUTED_METHODS and src(method_call(x)[0]) == owner]
+                key = f"detach:{owner}"
+                if early:
+                    nd, x = sorted(early, key=lambda t: t[0].lineno)[0]
+                    obs.append(bad("DETACH", fi, key, props, x,
+                                   f"`{src(x)[:50]}` is called on `{owner}` after it was given its own state but before `{owner}.index = None`: the call is routed to the container "
+                                   f"(which contracts/expands/measures *its* state and re-tags its members), leaving `{owner}` with data that does not match its level"))
+                else:
+                    obs.append(ok("DETACH", fi, key, props, assigns[0], f"`{owner}` is detached before any routed method is called on it"))
+    if n < 4:
+        raise AnalysisError(f"DETACH: {n} detachment sites (floor 4)")
     return obs
